@@ -14,9 +14,9 @@ func init() {
 
 type gmectx struct {
 	*pool
-	Ready                                                         int64
+	Ready                                                                         int64
 	invoke, newStream, pickConn, closeFn, upd, ctor, newMC, notify, monitor, stop *ssa.Function
-	fromCtx, newCtx                                               *ssa.Function
+	fromCtx, newCtx                                                               *ssa.Function
 }
 
 func newGME(c *Ctx, w *World) *gmectx {
@@ -143,8 +143,14 @@ func checkC15(c *Ctx, w *World) {
 	}
 
 	// ---- C15.pick
-	nameOK := func(v ssa.Value) bool { e, ok := stripConv(v).(*ssa.Extract); return ok && e.Index == 1 && isCallTo(e.Tuple, g.fromCtx, p) }
-	isName := func(v ssa.Value) bool { e, ok := stripConv(v).(*ssa.Extract); return ok && e.Index == 0 && isCallTo(e.Tuple, g.fromCtx, p) }
+	nameOK := func(v ssa.Value) bool {
+		e, ok := stripConv(v).(*ssa.Extract)
+		return ok && e.Index == 1 && isCallTo(e.Tuple, g.fromCtx, p)
+	}
+	isName := func(v ssa.Value) bool {
+		e, ok := stripConv(v).(*ssa.Extract)
+		return ok && e.Index == 0 && isCallTo(e.Tuple, g.fromCtx, p)
+	}
 	var byName, byDefault *ssa.Lookup
 	eachInstr(g.pickConn, func(in ssa.Instruction) {
 		if l, ok := in.(*ssa.Lookup); ok && isLoadOf(l.X, "GCPMultiEndpoint.mes") {
